@@ -218,6 +218,15 @@ def c18(rep, tier, seed):
                         "call observed; every injection point of the fault layer is a controller-chosen scheduling point"]
 
 
+@check("C17")
+def c17(rep, tier, seed):
+    """fiber fault-injection runs are reproducible from their seed (FiberSched.tla + pairwise comparison)"""
+    from . import repro
+    repro.check(rep, tier, seed)
+    rep.assumptions += ["client programs: thread pool + WhenAll, strand over pool, timed waits, coroutines with Mutex; the "
+                        "run is observed through the YACLIB_VERIF observation hooks (draws, picks, resumptions, injected yields)"]
+
+
 def all_conc_specs(tier):
     """every concurrent specification that carries ownership ghost state and a MemModel instance"""
     return [spec_unique(tier), spec_shared(tier), spec_wait(tier), spec_when(tier, ALL_STRATS + ANY_STRATS, "C09"),
